@@ -103,9 +103,9 @@ func c10GeneratorsOnly(thorough bool, only int, inWorker bool) []c10Gen {
 			return genValid([]*wgen.Family{ss().f1, wgen.F2(2, false)}, append(append([]wgen.Micro{}, wgen.Micros...), ss().corp...))
 		})
 	}
-	add(func() c10Gen { return genC11Programs(thorough, inWorker) })
+	add(func() c10Gen { g := genC11Programs(thorough, inWorker); g.Light = !thorough; return g })
 	add(func() c10Gen { return genFeatures(thorough) })
-	add(func() c10Gen { return genConstructs(thorough) })
+	add(func() c10Gen { g := genConstructs(thorough); g.Light = !thorough; return g })
 	return gens
 }
 
@@ -173,7 +173,10 @@ type c10Panic struct {
 // c10Stage is the pipeline stage c10RunOne is in (read by the worker's watchdog).
 var c10Stage atomic.Value
 
-func c10RunOne(src string) (panics []c10Panic) {
+// light: leave out the one-call Compile wrapper (its parts are run one by one anyway) and the two non-default
+// option sets (SPIR-V 1.0 with debug info, GLSL 330); every stage and every backend still runs. Used by the quick tier for the two bulk generators of generated programs.
+func c10RunOne(src string, light ...bool) (panics []c10Panic) {
+	isLight := len(light) > 0 && light[0]
 	stage := "tokenize"
 	guard := func(st string, f func()) {
 		stage = st
@@ -187,7 +190,9 @@ func c10RunOne(src string) (panics []c10Panic) {
 		f()
 	}
 	guard("tokenize", func() { wgsl.NewLexer(src).Tokenize() })
-	guard("compile", func() { naga.Compile(src) })
+	if !isLight { // the one-call wrapper; its parts (parse, lower, validate, SPIR-V) are run one by one below
+		guard("compile", func() { naga.Compile(src) })
+	}
 	var m *ir.Module
 	guard("parse+lower", func() {
 		ast, err := naga.Parse(src)
@@ -204,7 +209,9 @@ func c10RunOne(src string) (panics []c10Panic) {
 	}
 	guard("validate", func() { naga.Validate(m) })
 	guard("spirv", func() { naga.GenerateSPIRV(m, spirv.DefaultOptions()) })
-	guard("spirv1.0", func() { naga.GenerateSPIRV(m, spirv.Options{Version: spirv.Version1_0, Debug: true}) })
+	if !isLight {
+		guard("spirv1.0", func() { naga.GenerateSPIRV(m, spirv.Options{Version: spirv.Version1_0, Debug: true}) })
+	}
 	guard("hlsl", func() { hlsl.Compile(m, hlsl.DefaultOptions()) })
 	guard("msl", func() {
 		o := msl.DefaultOptions()
@@ -220,13 +227,15 @@ func c10RunOne(src string) (panics []c10Panic) {
 			glsl.Compile(m, o)
 		})
 	}
-	guard("glsl330", func() {
-		o := glsl.DefaultOptions()
-		if len(m.EntryPoints) > 0 {
-			o.EntryPoint = m.EntryPoints[0].Name
-		}
-		glsl.Compile(m, o)
-	})
+	if !isLight {
+		guard("glsl330", func() {
+			o := glsl.DefaultOptions()
+			if len(m.EntryPoints) > 0 {
+				o.EntryPoint = m.EntryPoints[0].Name
+			}
+			glsl.Compile(m, o)
+		})
+	}
 	guard("dxil", func() { dxil.Compile(m, dxil.DefaultOptions()) })
 	return
 }
@@ -278,14 +287,14 @@ func c10StartSelfWatchdog(cpuCap float64) {
 
 // c10WorkerInput runs one input under the worker protocol: "@ k j" before, "P k j {panic}" per recovered
 // panic, "T k j cpu" after an input that used a second of CPU or more.
-func c10WorkerInput(k, j int, src string) {
+func c10WorkerInput(k, j int, src string, light bool) {
 	out := os.Stdout
 	fmt.Fprintf(out, "@ %d %d\n", k, j)
 	c0 := selfCPU()
 	c10Watch.mu.Lock()
 	c10Watch.active, c10Watch.k, c10Watch.j, c10Watch.startCPU = true, k, j, c0
 	c10Watch.mu.Unlock()
-	ps := c10RunOne(src)
+	ps := c10RunOne(src, light)
 	c10Watch.mu.Lock()
 	c10Watch.active = false
 	c10Watch.mu.Unlock()
@@ -310,7 +319,7 @@ func c10Worker(args []string) int {
 	c10StartSelfWatchdog(cpuCap)
 	if args[0] == "stdin" {
 		b, _ := io.ReadAll(os.Stdin)
-		c10WorkerInput(0, 0, string(b))
+		c10WorkerInput(0, 0, string(b), false)
 		fmt.Fprintln(os.Stdout, "D")
 		return 0
 	}
@@ -350,7 +359,7 @@ func c10Worker(args []string) int {
 			if srcs[j] == c10SkipInput {
 				continue
 			}
-			c10WorkerInput(k, j, srcs[j])
+			c10WorkerInput(k, j, srcs[j], gen.Light)
 		}
 	}
 	fmt.Fprintln(os.Stdout, "D")
@@ -542,8 +551,8 @@ func runC10() int {
 const c10Rule = "every token string up to length L over a 24-token alphabet in 3 contexts; every single-token edit (delete/duplicate/swap/replace by each alphabet token) at every token of every seed; every prefix and every byte substitution from a hostile byte set at every offset of the small seeds; parametric ladders (nesting depth, chain length, object size) up to 64 KiB of source plus fixed cyclic/self-referential programs; all valid generated programs. " +
 	"c11-programs: every program the C11 check generates (semantically invalid but syntactically well-formed programs, and their valid controls): every rule-breaking edit of every C11 seed (c11Edits) and the whole generated family C11G (rule x host position x enclosing function x declaration order; module-scope hosts; binding pairing; workgroup size; scope pairs; ';'/delimiter deletions of the generated hosts), offenders run whether or not the control is accepted. " +
 	"features: a table of self-contained module-scope feature snippets, valid, odd and invalid (recursion, duplicated and odd bindings, duplicate/shadowing/reserved names, type/const/override cycles, odd entry points and attributes, every address space x type kind, every texture/sampler kind unused/used/passed to a helper, swizzle lengths 1..6 x vector widths, derivative/barrier/atomic/subgroup/quad builtins in every stage, directives, const_assert forms, odd statements/expressions/literals ...): every snippet alone; ALL ordered pairs of the pair set, each as one module in two layouts (each snippet with its own entry point; one entry point using both); every other snippet x the 8-snippet mini core in both orders and layouts; thorough: all ordered pairs of all snippets and all ordered triples of the core. Identifiers are made distinct by a per-position prefix unless the clash is the point. " +
-	"constructs: exhaustive single-construct sweeps (every swizzle length 1..6 x vector width x letter pattern x base expression kind x namespace; every builtin function name x argument count 0..6 x argument-kind pattern, as statement and as value). " +
-	"Each input goes through tokenize, Compile, parse, lower, validate and all five backends in an isolated worker (ulimit -v 4 GiB, CPU-time cap). distinct = distinct (stage, panic message class, innermost naga frame) outcomes plus the clean outcome"
+	"constructs: exhaustive single-construct sweeps (every letter string of length 1..5 (thorough 1..6) over xyzw and over rgba, longer repeated/cycled and namespace-mixing strings, x vector width 2..4 x 10 base-expression kinds; every builtin function and type-constructor name x leading-argument pattern x 0..4 (thorough 0..6) further arguments of one kind, as a value and as a statement (thorough: also as both operands of a binary operator)). " +
+	"Each input goes through tokenize, Compile, parse, lower, validate and all five backends (SPIR-V and GLSL under two option sets each; the quick tier runs c11-programs and constructs under the default option sets only and without the one-call Compile wrapper, whose parts are run one by one) in an isolated worker (ulimit -v 4 GiB, CPU-time cap measured by the worker itself per input). distinct = distinct (stage, panic message class, innermost naga frame) outcomes plus the clean outcome"
 
 var c10Assumptions = []string{"a violation is a recovered panic, a worker death by Go fatal error (stack overflow, out of memory under the address-space limit), or more than the CPU-time cap spent on one input; slow-but-terminating inputs below the cap are not violations",
 	"coverage of 'all byte strings' is necessarily partial: what is exhausted is stated in rule",
@@ -569,6 +578,7 @@ type c10Proc struct {
 	panics   []c10PanicAt
 	slow     []c10Slow
 	nrun     int64
+	cpu      float64 // user+system CPU of the process (rusage)
 }
 
 type c10PanicAt struct {
@@ -681,6 +691,9 @@ func c10RunProc(self string, argv []string, stdin string, extraEnv string, cpuCa
 	mu.Lock()
 	defer mu.Unlock()
 	res.stderr = stderr.String()
+	if ps := cmd.ProcessState; ps != nil {
+		res.cpu = ps.UserTime().Seconds() + ps.SystemTime().Seconds()
+	}
 	return res
 }
 
@@ -773,6 +786,7 @@ func c10RunShard(r *explore.Run, self, tier string, g int, gen c10Gen, shard, n,
 	}
 	r.Count("evaluations", proc.nrun)
 	r.Count("programs_"+gen.Name, proc.nrun)
+	r.Count("worker_cpu_s_"+gen.Name, int64(proc.cpu+0.5))
 	r.Distinct("clean")
 	if proc.done {
 		return true, 0, 0
@@ -784,10 +798,19 @@ func c10RunShard(r *explore.Run, self, tier string, g int, gen c10Gen, shard, n,
 	k, j := proc.k, proc.j
 	idx := shard + k*n
 	src := gen.src(idx, j)
-	classes, alone := c10RunAlone(self, src, capSuffix(idx), cpuCap, memKiB)
-	if alone.done && len(classes) == 0 {
-		r.Count("watchdog_retries_clean", 1)
-		return false, k, j
+	var classes []string
+	alone := proc
+	if proc.selfKill {
+		// the worker's own watchdog: CPU time of exactly this input, measured by the worker (rusage at the
+		// input's start vs now); independent of the parent, so it is taken as it stands
+		classes = []string{c10DeathClass(proc, capSuffix(idx))}
+	} else {
+		classes, alone = c10RunAlone(self, src, capSuffix(idx), cpuCap, memKiB)
+		if alone.done && len(classes) == 0 {
+			r.Count("watchdog_retries_clean", 1)
+			return false, k, j
+		}
+		r.Count("deaths_confirmed_alone", 1)
 	}
 	for _, cls := range classes {
 		f := c10Failure{idx: idx, sub: j, cls: cls,
@@ -796,9 +819,9 @@ func c10RunShard(r *explore.Run, self, tier string, g int, gen c10Gen, shard, n,
 			f.detail = fmt.Sprintf("recovered panic (%s)\ninput: %s [%s #%d.%d]", cls, gen.label(idx, j), gen.Name, idx, j)
 		} else {
 			es := alone.stderr
-			f.detail = fmt.Sprintf("worker died on input %s [%s #%d.%d] (run alone in a fresh worker): %s\ninnermost naga frame: %s", gen.label(idx, j), gen.Name, idx, j, firstLine(es), topNagaFrame(afterGoroutine(es)))
+			f.detail = fmt.Sprintf("worker died on input %s [%s #%d.%d] (confirmed alone in a fresh worker): %s\ninnermost naga frame: %s", gen.label(idx, j), gen.Name, idx, j, firstLine(es), topNagaFrame(afterGoroutine(es)))
 			if alone.selfKill || alone.killed {
-				f.detail = fmt.Sprintf("input %s [%s #%d.%d], run alone in a fresh worker, used more than the CPU cap of %g s", gen.label(idx, j), gen.Name, idx, j, cpuCap)
+				f.detail = fmt.Sprintf("input %s [%s #%d.%d] used more than the CPU cap of %g s (the worker's own rusage for this input alone; pipeline stage %s)", gen.label(idx, j), gen.Name, idx, j, cpuCap, alone.capStage)
 			}
 			f.replay["stderr"] = trunc(es, 6000)
 		}
